@@ -26,90 +26,108 @@ type FuncSpec struct {
 	Pkg  string // package path below the module, e.g. "pkg/provider"
 	Recv string // receiver type name ("" for plain functions)
 	Name string
+	// Part selects one level of a function of the shape
+	//   func f(a…) func(b…) (T, error) { return func(b…) (T, error) { …checks…; return func(c…) R { …body… }, nil } }
+	// "validate": the checks of the first closure (parameters a…, b…; result: the error), "derive": the body of the
+	// second closure (parameters a…, b…, c…; result R).  "" = the function itself.
+	Part string
 }
 
 func (f FuncSpec) key() string {
+	k := f.Pkg + "." + f.Name
 	if f.Recv != "" {
-		return f.Pkg + "." + f.Recv + "." + f.Name
+		k = f.Pkg + "." + f.Recv + "." + f.Name
 	}
-	return f.Pkg + "." + f.Name
+	if f.Part != "" {
+		k += "#" + f.Part
+	}
+	return k
 }
 
 func (f FuncSpec) lean() string {
+	n := f.Name
 	if f.Recv != "" {
-		return f.Recv + "_" + f.Name
+		n = f.Recv + "_" + f.Name
 	}
-	return f.Name
+	if f.Part != "" {
+		n += "_" + f.Part
+	}
+	return n
 }
 
 var whitelist = []FuncSpec{
-	{"pkg/provider", "", "isXSBooleanTrue"},
-	{"pkg/provider", "", "equalCertificateText"},
-	{"pkg/provider", "", "GetAcsUrlAndBindingForResponse"},
-	{"pkg/provider", "", "signaturePostProvided"},
-	{"pkg/provider", "", "signaturePostVerificationNecessary"},
-	{"pkg/provider", "", "signatureRedirectVerificationNecessary"},
-	{"pkg/provider", "", "certificateCheckNecessary"},
-	{"pkg/provider", "", "checkCertificate"},
-	{"pkg/provider", "", "checkIfRequestTimeIsStillValid"},
-	{"pkg/provider", "", "verifyRequestDestinationOfAuthRequest"},
-	{"pkg/provider", "", "verifyRequestDestinationOfAttrQuery"},
-	{"pkg/provider/serviceprovider", "ServiceProvider", "GetEntityID"},
-	{"pkg/provider", "", "checkRequestRequiredContent"},
-	{"pkg/provider", "", "verifyRedirectSignature"},
-	{"pkg/provider", "", "verifyPostSignature"},
-	{"pkg/provider", "", "BuildRedirectQuery"},
-	{"pkg/provider", "", "relativeEndpoint"},
-	{"pkg/provider", "", "absoluteEndpoint"},
-	{"pkg/provider", "Endpoint", "Relative"},
-	{"pkg/provider", "Endpoint", "Absolute"},
-	{"pkg/provider", "", "dynamicIssuer"},
-	{"pkg/provider", "", "devLocalAllowed"},
-	{"pkg/provider", "", "hasQueryOrFragment"},
-	{"pkg/provider", "", "ValidateIssuerPath"},
-	{"pkg/provider", "", "ValidateIssuer"},
-	{"pkg/provider", "Attributes", "GetNameID"},
-	{"pkg/provider", "Attributes", "GetSAML"},
-	{"pkg/provider/xml", "", "GetCertsFromKeyDescriptors"},
-	{"pkg/provider/xml", "", "InflateAndDecode"},
-	{"pkg/provider", "", "getResponseCert"},
-	{"pkg/provider", "", "getIssuer"},
-	{"pkg/provider", "", "makeResponse"},
-	{"pkg/provider", "", "makeAssertion"},
-	{"pkg/provider", "", "makeLogoutResponse"},
-	{"pkg/provider", "", "NewEndpoint"},
-	{"pkg/provider", "", "NewEndpointWithURL"},
-	{"pkg/provider", "", "endpointConfigToEndpoints"},
-	{"pkg/provider", "Response", "makeAssertionResponse"},
-	{"pkg/provider", "Response", "makeFailedResponse"},
-	{"pkg/provider", "Response", "makeSuccessfulResponse"},
-	{"pkg/provider", "", "createSignature"},
-	{"pkg/provider", "IdentityProvider", "loginResponse"},
-	{"pkg/provider", "IdentityProvider", "errorResponse"},
-	{"pkg/provider", "IdentityProvider", "callbackHandleFunc"},
-	{"pkg/provider", "Response", "sendBackResponse"},
-	{"pkg/provider", "LogoutResponse", "makeFailedLogoutResponse"},
-	{"pkg/provider", "LogoutResponse", "makeSuccessfulLogoutResponse"},
-	{"pkg/provider", "LogoutResponse", "sendBackLogoutResponse"},
-	{"pkg/provider", "", "getLogoutRequestFromRequest"},
-	{"pkg/provider", "IdentityProvider", "logoutHandleFunc"},
-	{"pkg/provider", "", "makeAttributeQueryResponse"},
-	{"pkg/provider", "IdentityProvider", "attributeQueryHandleFunc"},
-	{"pkg/provider", "", "getAuthRequestFromRequest"},
-	{"pkg/provider", "IdentityProvider", "ssoHandleFunc"},
-	{"pkg/provider", "", "getMetadataCert"},
-	{"pkg/provider", "Config", "getMetadata"},
-	{"pkg/provider", "Provider", "GetMetadata"},
-	{"pkg/provider", "Provider", "metadataHandle"},
-	{"pkg/provider/serviceprovider", "ServiceProvider", "ValidateRedirectSignature"},
-	{"pkg/provider/xml", "", "DecodeAuthNRequest"},
-	{"pkg/provider/xml", "", "DecodeLogoutRequest"},
-	{"pkg/provider", "IdentityProviderConfig", "getMetadata"},
-	{"pkg/provider", "IdentityProvider", "GetEntityID"},
-	{"pkg/provider", "IdentityProvider", "GetMetadata"},
-	{"pkg/provider", "", "createRedirectSignature"},
-	{"pkg/provider/serviceprovider", "", "getSigningCertsFromMetadata"},
-	{"pkg/provider/serviceprovider", "", "NewServiceProvider"},
+	{"pkg/provider", "", "isXSBooleanTrue", ""},
+	{"pkg/provider", "", "equalCertificateText", ""},
+	{"pkg/provider", "", "GetAcsUrlAndBindingForResponse", ""},
+	{"pkg/provider", "", "signaturePostProvided", ""},
+	{"pkg/provider", "", "signaturePostVerificationNecessary", ""},
+	{"pkg/provider", "", "signatureRedirectVerificationNecessary", ""},
+	{"pkg/provider", "", "certificateCheckNecessary", ""},
+	{"pkg/provider", "", "checkCertificate", ""},
+	{"pkg/provider", "", "checkIfRequestTimeIsStillValid", ""},
+	{"pkg/provider", "", "verifyRequestDestinationOfAuthRequest", ""},
+	{"pkg/provider", "", "verifyRequestDestinationOfAttrQuery", ""},
+	{"pkg/provider/serviceprovider", "ServiceProvider", "GetEntityID", ""},
+	{"pkg/provider", "", "checkRequestRequiredContent", ""},
+	{"pkg/provider", "", "verifyRedirectSignature", ""},
+	{"pkg/provider", "", "verifyPostSignature", ""},
+	{"pkg/provider", "", "BuildRedirectQuery", ""},
+	{"pkg/provider", "", "relativeEndpoint", ""},
+	{"pkg/provider", "", "absoluteEndpoint", ""},
+	{"pkg/provider", "Endpoint", "Relative", ""},
+	{"pkg/provider", "Endpoint", "Absolute", ""},
+	{"pkg/provider", "", "dynamicIssuer", ""},
+	{"pkg/provider", "", "devLocalAllowed", ""},
+	{"pkg/provider", "", "hasQueryOrFragment", ""},
+	{"pkg/provider", "", "ValidateIssuerPath", ""},
+	{"pkg/provider", "", "ValidateIssuer", ""},
+	{"pkg/provider", "Attributes", "GetNameID", ""},
+	{"pkg/provider", "Attributes", "GetSAML", ""},
+	{"pkg/provider/xml", "", "GetCertsFromKeyDescriptors", ""},
+	{"pkg/provider/xml", "", "InflateAndDecode", ""},
+	{"pkg/provider", "", "getResponseCert", ""},
+	{"pkg/provider", "", "getIssuer", ""},
+	{"pkg/provider", "", "makeResponse", ""},
+	{"pkg/provider", "", "makeAssertion", ""},
+	{"pkg/provider", "", "makeLogoutResponse", ""},
+	{"pkg/provider", "", "NewEndpoint", ""},
+	{"pkg/provider", "", "NewEndpointWithURL", ""},
+	{"pkg/provider", "", "endpointConfigToEndpoints", ""},
+	{"pkg/provider", "Response", "makeAssertionResponse", ""},
+	{"pkg/provider", "Response", "makeFailedResponse", ""},
+	{"pkg/provider", "Response", "makeSuccessfulResponse", ""},
+	{"pkg/provider", "", "createSignature", ""},
+	{"pkg/provider", "IdentityProvider", "loginResponse", ""},
+	{"pkg/provider", "IdentityProvider", "errorResponse", ""},
+	{"pkg/provider", "IdentityProvider", "callbackHandleFunc", ""},
+	{"pkg/provider", "Response", "sendBackResponse", ""},
+	{"pkg/provider", "LogoutResponse", "makeFailedLogoutResponse", ""},
+	{"pkg/provider", "LogoutResponse", "makeSuccessfulLogoutResponse", ""},
+	{"pkg/provider", "LogoutResponse", "sendBackLogoutResponse", ""},
+	{"pkg/provider", "", "getLogoutRequestFromRequest", ""},
+	{"pkg/provider", "IdentityProvider", "logoutHandleFunc", ""},
+	{"pkg/provider", "", "makeAttributeQueryResponse", ""},
+	{"pkg/provider", "IdentityProvider", "attributeQueryHandleFunc", ""},
+	{"pkg/provider", "", "getAuthRequestFromRequest", ""},
+	{"pkg/provider", "IdentityProvider", "ssoHandleFunc", ""},
+	{"pkg/provider", "", "getMetadataCert", ""},
+	{"pkg/provider", "Config", "getMetadata", ""},
+	{"pkg/provider", "Provider", "GetMetadata", ""},
+	{"pkg/provider", "Provider", "metadataHandle", ""},
+	{"pkg/provider/serviceprovider", "ServiceProvider", "ValidateRedirectSignature", ""},
+	{"pkg/provider/xml", "", "DecodeAuthNRequest", ""},
+	{"pkg/provider/xml", "", "DecodeLogoutRequest", ""},
+	{"pkg/provider", "IdentityProviderConfig", "getMetadata", ""},
+	{"pkg/provider", "IdentityProvider", "GetEntityID", ""},
+	{"pkg/provider", "IdentityProvider", "GetMetadata", ""},
+	{"pkg/provider", "", "createRedirectSignature", ""},
+	{"pkg/provider/serviceprovider", "", "getSigningCertsFromMetadata", ""},
+	{"pkg/provider/serviceprovider", "", "NewServiceProvider", ""},
+	{Pkg: "pkg/provider", Name: "hostFromForwarded"},
+	{Pkg: "pkg/provider", Name: "issuerFromForwardedOrHost", Part: "validate"},
+	{Pkg: "pkg/provider", Name: "issuerFromForwardedOrHost", Part: "derive"},
+	{Pkg: "pkg/provider", Name: "StaticIssuer", Part: "validate"},
+	{Pkg: "pkg/provider", Name: "StaticIssuer", Part: "derive"},
 }
 
 // standaloneOnly: translated for theorems of their own; callers keep consulting the (legacy) oracle of the same name, so
@@ -182,6 +200,8 @@ type fn struct {
 	inout []*param
 	// hasWB: a second definition <lean>_wb exists (func(error) parameters as extra results)
 	hasWB bool
+	// one level of a closure-returning function (FuncSpec.Part)
+	partValidate, partDerive bool
 }
 
 type param struct {
@@ -331,7 +351,9 @@ func (w *world) collect() {
 			continue
 		}
 		f.obj = p.TypesInfo.Defs[f.decl.Name]
-		w.byObj[f.obj] = f
+		if spec.Part == "" {
+			w.byObj[f.obj] = f
+		}
 		w.prepare(f)
 	}
 }
@@ -374,6 +396,54 @@ func (w *world) prepare(f *fn) {
 	}
 	f.body = f.decl.Body
 	res := sig.Results()
+	if f.spec.Part != "" {
+		// level 1: the function returns a closure literal
+		lit := func(body *ast.BlockStmt) *ast.FuncLit {
+			if len(body.List) == 0 {
+				panic("part: empty body")
+			}
+			r, ok := body.List[len(body.List)-1].(*ast.ReturnStmt)
+			if !ok || len(r.Results) == 0 {
+				panic("part: body does not end in a return")
+			}
+			fl, ok := r.Results[0].(*ast.FuncLit)
+			if !ok {
+				panic("part: no closure literal returned")
+			}
+			return fl
+		}
+		if len(f.decl.Body.List) != 1 {
+			panic("part: the function does more than returning a closure")
+		}
+		l1 := lit(f.decl.Body)
+		for _, fld := range l1.Type.Params.List {
+			for _, n := range fld.Names {
+				addParam(info.Defs[n].(*types.Var))
+			}
+		}
+		switch f.spec.Part {
+		case "validate":
+			f.body = l1.Body
+			f.partValidate = true
+			f.resTypes = []types.Type{types.Universe.Lookup("error").Type()}
+			return
+		case "derive":
+			l2 := lit(l1.Body)
+			for _, fld := range l2.Type.Params.List {
+				for _, n := range fld.Names {
+					addParam(info.Defs[n].(*types.Var))
+				}
+			}
+			f.body = l2.Body
+			f.partDerive = true
+			rs := info.TypeOf(l2).(*types.Signature).Results()
+			for i := 0; i < rs.Len(); i++ {
+				f.resTypes = append(f.resTypes, rs.At(i).Type())
+			}
+			return
+		}
+		panic("unknown part " + f.spec.Part)
+	}
 	// closure-returning function: func f(...) func() R { return func() R { ... } }
 	if res.Len() == 1 {
 		if rs, ok := res.At(0).Type().Underlying().(*types.Signature); ok && rs.Params().Len() == 0 {
@@ -708,7 +778,7 @@ func (w *world) translateMode(f *fn, setterMode bool) {
 		c.retTy = strings.Join(all, " × ")
 	}
 	// named results become locals
-	if f.inner == nil {
+	if f.inner == nil && f.spec.Part == "" {
 		sig := f.obj.Type().(*types.Signature)
 		for i := 0; i < sig.Results().Len(); i++ {
 			r := sig.Results().At(i)
@@ -803,6 +873,13 @@ func (c *tctx) stmts(list []ast.Stmt, ind string) string {
 				return guardWrap(v.g, ind, fmt.Sprintf("%s.ret (%s, s)", ind, v.e))
 			}
 			panic("closure with more than one result")
+		}
+		if c.f.partValidate {
+			if len(s.Results) != 2 {
+				panic("validate part: return with other than two results")
+			}
+			v := c.exprAs(s.Results[1], c.f.resTypes[0])
+			return guardWrap(v.g, ind, ind+".ret "+c.retTuple([]string{v.e}))
 		}
 		if len(s.Results) == 0 {
 			// naked return with named results
@@ -2105,6 +2182,9 @@ func (c *tctx) expr(e ast.Expr) val {
 		if sel == nil || sel.Kind() != types.FieldVal {
 			panic("unsupported selector " + c.src(x))
 		}
+		if x.Sel.Name == "Host" && isIgnoredType(c.info.TypeOf(x.X)) {
+			return val{e: c.oracle("reqHost", "String", "r.Host of the request being served")}
+		}
 		base := c.expr(x.X)
 		bt := c.info.TypeOf(x.X)
 		ns := namedStruct(bt)
@@ -2164,6 +2244,11 @@ func (c *tctx) expr(e ast.Expr) val {
 				v := c.expr(x.X)
 				return val{e: fmt.Sprintf("(%s.getD %s default)", v.e, lit.Value), g: append(v.g, fmt.Sprintf("decide (%s.length ≤ %s)", v.e, lit.Value))}
 			}
+		}
+		// r.Header[name]: the values of one header of the request being served (oracle); the key is used as given
+		if hs, ok := x.X.(*ast.SelectorExpr); ok && hs.Sel.Name == "Header" && isIgnoredType(c.info.TypeOf(hs.X)) {
+			k := c.expr(x.Index)
+			return val{e: fmt.Sprintf("(%s %s)", c.oracle("headerValues", "String → (List String)", "r.Header[name] of the request being served"), k.e), g: k.g}
 		}
 		panic("unsupported index expression " + c.src(x))
 	case *ast.CallExpr:
@@ -2666,6 +2751,9 @@ func (c *tctx) libCall(pkg, name string, x *ast.CallExpr) val {
 	case "strconv.Atoi":
 		// (int, error)
 		return val{e: fmt.Sprintf("(let r_ := Lib.atoi %s; (r_.1, (if r_.2 then (none : Err) else some \"strconv.Atoi\")))", es[0]), g: g}
+	case "github.com/muhlemmer/httpforwarded.ParseParameter":
+		// RFC 7239 parser of the vendored library: (values of the named parameter in order, error)
+		return val{e: fmt.Sprintf("(%s %s %s)", c.oracle("forwardedParse", "String → (List String) → (List String) × Err", "httpforwarded.ParseParameter(name, headerValues) (library, not translated)"), es[0], es[1]), g: g}
 	case "net/url.QueryEscape":
 		return val{e: "(Lib.queryEscape " + es[0] + ")", g: g}
 	case "strings.TrimPrefix":
